@@ -151,7 +151,10 @@ def _check_pairs_inner(case, ctx):
             shape[ax_], extra[ax_] = INEXACT[idx][0], INEXACT[idx][1] - INEXACT[idx][0]
             ctx.label('n*(k/n)!=k')
     if case.get('via', 'executor') != 'executor':
-        shape[1], extra[1] = shape[0], extra[0]         # one spacing per plane: square pupil, square band
+        # one spacing per plane: the full band has lambda f / (dx_a dx_b) samples on *both* axes whatever the (possibly non-square) shape of the
+        # starting plane, so the band-complete grid is square with k >= max(shape)
+        kk = max(shape) + extra[0]
+        extra[0], extra[1] = kk - shape[0], kk - shape[1]
     k = (shape[0] + extra[0], shape[1] + extra[1])
     Q = (k[0] / shape[0], k[1] / shape[1])
     mag, maglabel = _mag(case, prec)
@@ -170,9 +173,9 @@ def _check_pairs_inner(case, ctx):
         from prysm import propagation as P
         ctx.label('via:' + via)
         ph = case['phys']
-        n_, k_ = shape[0], k[0]
+        k_ = k[0]
         dxa = ph['dx']                                       # spacing of the plane we start in
-        dxb = ph['wvl'] * ph['efl'] / (n_ * dxa * (k_ / n_))  # spacing of the full-band plane: Q = k/n exactly
+        dxb = ph['wvl'] * ph['efl'] / (dxa * k_)             # spacing of the full-band plane: n Q = k on both axes
         first_is_focus = case['order'] != 'inv-fwd'
 
         def fwd(a, Q_, out_, s_=(0, 0)):      # noqa - same call shape as the executors, shift in samples of the output plane
@@ -239,7 +242,7 @@ def strat_free(tier):
         'wvl': st.sampled_from([0.5, 0.6328, 1.55, 10.6]), 'dx': st.sampled_from([0.01, 0.05, 0.2, 1.0, 2e-4, 1e-3]),
         'z1': z, 'z2': z, 'Q': st.sampled_from([1, 1, 2]), 'via': st.sampled_from(['function', 'tf', 'wavefront']),
         'kind': U.field_kinds, 'prec': st.sampled_from([64, 64, 64, 32]), 'layout': U.layouts, 'seed': U.seeds,
-        'scalar_type': st.sampled_from(['float', 'float', 'np.float64', '0d-array']), 'mag': MAG})
+        'scalar_type': st.sampled_from(['float', 'float', 'np.float64', '0d-array']), 'mag': MAG, 'space': st.sampled_from(['pupil', 'psf'])})
 
 
 def check_free(case, ctx):
@@ -301,6 +304,18 @@ def check_free(case, ctx):
         U.check_close(g12, gs, tol, 'free_space:additive', 'P(z2)P(z1) != P(z1+z2) for z1=%g z2=%g' % (z1, z2), atol=tol * math.sqrt(E))
         U.check_equal(f, f_before, 'free_space:input-modified', 'propagation modified its input array')
         if via == 'wavefront':
+            # hops chained on the returned Wavefront objects (no re-wrapping in between), from a wavefront labelled 'pupil' or 'psf'
+            # (free space propagation works on whatever plane the wavefront is in; dx is taken as given)
+            sp = case.get('space', 'pupil')
+            ctx.label('wavefront-space:' + sp)
+            w0 = P.Wavefront(f.copy(), wvl, dx, space=sp)
+            c1 = ctx.call(w0.free_space, z1, Q)
+            ctx.require(float(c1.dx) == dx0 and c1.space == sp, 'free_space:metadata', 'dx / space of the propagated wavefront: %r %r (was %r %r)' % (float(c1.dx), c1.space, dx0, sp))
+            cb = ctx.call(c1.free_space, -z1, 1)
+            U.check_close(np.asarray(cb.data), f0, tol, 'free_space:chained:inverse', 'w.free_space(z).free_space(-z) != w (space=%s) for z=%g' % (sp, z1), atol=tol * math.sqrt(E))
+            c12 = ctx.call(c1.free_space, z2, 1)
+            U.check_close(np.asarray(c12.data), gs, tol, 'free_space:chained:additive', 'w.free_space(z1).free_space(z2) != w.free_space(z1+z2) (space=%s)' % sp, atol=tol * math.sqrt(E))
+            ctx.require(float(c12.dx) == dx0 and float(cb.dx) == dx0, 'free_space:metadata', 'dx drifted along a chain of propagations: %r, %r (was %r)' % (float(c12.dx), float(cb.dx), dx0))
             # one Wavefront object across several propagations, its public data array edited in place or reassigned in between: every
             # result follows the data the object holds at the time of the call
             wh = P.Wavefront(f.copy(), wvl, dx)
